@@ -12,7 +12,7 @@ OPSRC = {"isnot": "is not", "notin": "not in"}
 # ---- chain operands -------------------------------------------------------------------------
 CH_DOM = ["m1", "i0", "i1", "f0", "f1", "T", "sa", "sb", "ba", "N", "W"]
 CH_DOM3 = {"quick": ["m1", "i1", "f1", "sa", "ba", "W"], "thorough": ["m1", "i0", "i1", "f1", "T", "sa", "ba", "N", "W"]}
-CH_DOM4 = {"quick": ["i0", "i1", "sa", "W"], "thorough": ["i0", "i1", "f1", "sa", "N", "W"]}
+CH_DOM4 = {"quick": ["i0", "i1", "sa", "W"], "thorough": ["i0", "i1", "sa", "N", "W"]}
 TY_DOM = {"i": ["m1", "i0", "i1"], "d": ["f0", "f1"], "s": ["sa", "sb", "N"], "y": ["ba", "N"]}
 TY_DECL = {"o": "", "i": "int ", "d": "double ", "s": "str ", "y": "bytes "}
 TY_LEAF = {"o": "L", "i": "Li", "d": "Ld", "s": "Ls", "y": "Ly"}
@@ -156,13 +156,11 @@ def chain_shapes(tier, rng):
     if tier == "quick":
         pick2, pickm, pick3, pick3t = rng.sample(typed2, 150), rng.sample(mixed2, 50), rng.sample(ops3, 24), rng.sample(typed3, 40)
     else:
-        pick2, pickm, pick3, pick3t = typed2, rng.sample(mixed2, 1200), rng.sample(ops3, 500), rng.sample(typed3, 1500)
+        pick2, pickm, pick3, pick3t = rng.sample(typed2, 1000), rng.sample(mixed2, 500), rng.sample(ops3, 150), rng.sample(typed3, 300)
     for k, (ops, ty) in enumerate(pick2 + pickm):
         out.append({"ops": list(ops), "ty": "".join(ty), "ctx": ("val", "bool")[k % 2], "form": "leaf"})
     for k, ops in enumerate(pick3):
         out.append({"ops": list(ops), "ty": "oooo", "ctx": ("val", "bool")[k % 2], "form": "leaf"})
-        if tier != "quick":
-            out.append({"ops": list(ops), "ty": "oooo", "ctx": ("bool", "val")[k % 2], "form": "leaf"})
     for k, (ops, ty) in enumerate(pick3t):
         out.append({"ops": list(ops), "ty": "".join(ty), "ctx": ("val", "bool")[k % 2], "form": "leaf"})
     for s in out:
@@ -240,7 +238,7 @@ def member_shapes(tier, rng):
                                     "xdom": XTY_DOM[xty], "mdoms": [mdom] * n})
     lits = [list(ms) for n in (1, 2, 3) for ms in itertools.product(MLIT, repeat=n)]
     combos = [(kind, neg, ms, xty) for kind in ("tuple", "list", "set", "dict") for neg in (False, True) for ms in lits for xty in "oid"]
-    pick = rng.sample(combos, 200 if tier == "quick" else 4000)
+    pick = rng.sample(combos, 200 if tier == "quick" else 2500)
     for k, (kind, neg, ms, xty) in enumerate(pick):
         out.append({"kind": kind, "neg": neg, "form": "lit", "xty": xty, "ctx": ("val", "bool")[k % 2],
                     "xdom": XTY_DOM[xty], "mdoms": [[m] for m in ms]})
